@@ -137,9 +137,10 @@ class Check:
             "wall_s": round(wall, 2),
             "violations": len(self.violations),
         }
-        os.makedirs(EVID, exist_ok=True)
-        with open(os.path.join(EVID, self.pid + ".json"), "w") as fh:
-            json.dump(ev, fh, indent=1, default=str)
+        if not getattr(self, "replay_mode", False):     # re-running one stored case does not replace the evidence of the last full run
+            os.makedirs(EVID, exist_ok=True)
+            with open(os.path.join(EVID, self.pid + ".json"), "w") as fh:
+                json.dump(ev, fh, indent=1, default=str)
         for key, (what, n) in sorted(self.known_hits.items()):
             print("KNOWN-FINDING: property=%s %s [key=%s, %d case(s)]" % (self.pid, what, key, n))
         seen = set()
@@ -177,6 +178,7 @@ def main(run_fn, pid):
     chk = Check(pid, tier, seed)
     try:
         if a.replay:
+            chk.replay_mode = True
             with open(a.replay) as fh:
                 rep = json.load(fh)
             run_fn(chk, replay=rep["case"])
